@@ -405,3 +405,33 @@ Section ConnFail.
       destruct (r_nil c); try congruence; simpl; eauto.
   Qed.
 End ConnFail.
+
+(* ------------------------------------------------------------------ multi-key delete with unreachable shards *)
+Section EachFault.
+  Variables N K A R : Type.
+  Variable node_run : N -> K -> A -> N * R.
+  Variable owner : K -> nat.
+  Variable down : nat -> bool.
+
+  Definition reachable (k : K) : bool := negb (down (owner k)).
+  Definition somes (l : list (option R)) : list R := flat_map (fun o => match o with Some x => [x] | None => [] end) l.
+
+  (* the faulty loop IS the fault-free loop over the keys whose shard is reachable -- whatever the position of the
+     unreachable ones -- and it reports an error iff some named key is unreachable *)
+  Lemma kv_each_f_filter ks a : forall cl,
+    fst (kv_each_f node_run owner down cl ks a) = fst (kv_each node_run owner cl (filter reachable ks) a) /\
+    somes (snd (kv_each_f node_run owner down cl ks a)) = snd (kv_each node_run owner cl (filter reachable ks) a) /\
+    (existsb (fun o => match o with None => true | Some _ => false end) (snd (kv_each_f node_run owner down cl ks a))
+       = existsb (fun k => down (owner k)) ks).
+  Proof.
+    induction ks as [|k r IH]; intro cl; [simpl; repeat split; reflexivity|].
+    cbn [kv_each_f filter existsb]. replace (reachable k) with (negb (down (owner k))) by reflexivity.
+    destruct (down (owner k)) eqn:E; cbn [negb orb].
+    - destruct (IH cl) as [H1 [H2 H3]]. destruct (kv_each_f node_run owner down cl r a) as [c2 xs].
+      cbn [fst snd somes flat_map app existsb orb] in *. split; [assumption|]. split; [assumption|reflexivity].
+    - cbn [kv_each]. destruct (kv_step node_run owner cl k a) as [c1 x]. destruct (IH c1) as [H1 [H2 H3]].
+      destruct (kv_each_f node_run owner down c1 r a) as [c2 xs].
+      destruct (kv_each node_run owner c1 (filter reachable r) a) as [c3 ys].
+      cbn [fst snd somes flat_map app existsb orb] in *. split; [assumption|]. split; [f_equal; assumption|assumption].
+  Qed.
+End EachFault.
